@@ -300,6 +300,7 @@ pub fn c30_reenter_case(src: &mut Src, obs: &mut Obs) -> CaseResult {
     let mut peer = Peer::new(sh, false);
     let iface = if seq { "c30.ReenterSeq" } else { "c30.Reenter" };
     let n = 1 + src.below(6);
+    let spaced = src.bool();
     let mut calls = vec![];
     let mut kinds = vec![];
     for i in 0..n {
@@ -324,6 +325,16 @@ pub fn c30_reenter_case(src: &mut Src, obs: &mut Obs) -> CaseResult {
         kinds.push(["Add", "Del", "Emit", "AddMut", "Get(Probe)", "Set(Knob)", "GetAll", "Close", "CloseRo", "Introspect", "AddMutLater", "GetManagedObjects"][kind]);
         peer.send(&m);
         calls.push(m);
+        // the calls arrive together, or with the connection at work in between (an earlier handler
+        // may be under way, holding its interface, when the next call is taken in)
+        if spaced {
+            let gap = src.below(12);
+            let mut k = 0;
+            let _ = sched.run(&mut || sch.next(), 10_000, &mut |_| {
+                k += 1;
+                k > gap
+            });
+        }
     }
     // now and then somebody outside the handlers looks the interface up while the calls are served
     let lookup = if src.chance(100) {
@@ -379,6 +390,9 @@ pub fn c30_reenter_case(src: &mut Src, obs: &mut Obs) -> CaseResult {
         }
     }
     obs.label(if seq { "spawn=false" } else { "spawn=true" });
+    if spaced {
+        obs.label("calls-arrive-spaced-out");
+    }
     for k in ["Introspect", "AddMutLater", "GetManagedObjects", "(interface() from outside)", "(object manager added from outside)"] {
         if kinds.contains(&k) {
             obs.label(k);
